@@ -106,36 +106,48 @@ def failclose_variants(conf, recs, rs=None):
 
 
 def check_failclose(ctx, conf, recs, where, announced=None, terms=None, use_with=None):
-    """S (and, through terms, K): the count is announced as N != number of records, the records are written and
-    close() is reached (explicit call / with block): close must raise, and the file left behind must be rejected on
-    opening.  k > N: record N is what the reader finds at the box position; when it consists of numeric tokens
-    only the file is a syntactically valid N-atom file (documented, outside the domain) and is skipped."""
+    """S (and, through terms, K): the count is announced as N != number of records; the program writes the
+    records and reaches close() (explicit call / with block) unless a writeline raises first.  Whenever an
+    exception escapes - from close() (k < N: count mismatch) or from the writeline that is refused once the
+    announced count is reached (k > N, D18; the with block then still closes the file) - and close() has not
+    completed, the file left behind must be rejected on opening.  No exemption: a record made of numeric tokens
+    (resname '1e5') must not be readable as the box line of a shorter system."""
     path = os.path.join(gc.tmpdir(), "s14f.gro")
     k = len(recs)
-    # the text of the atom lines, from a run of the same records that completes (count left to close)
-    reference = complete_text(dict(conf, natoms=None), recs) if recs else None
     for i, N in enumerate(failclose_variants(conf, recs) if announced is None else announced):
         c = dict(conf, natoms=N)
         style = bool((i + k) & 1) if use_with is None else use_with
-        raised, text, obs = gc.run_failclose(path, c, recs, style)
+        raised, text, obs, closed = gc.run_failclose(path, c, recs, style)
         ctx.cov["S"][where] = ctx.cov["S"].get(where, 0) + 1
         rep = {"kind": "failclose", "case": gc.case_json(c, recs), "with_block": style}
         if raised is None:
-            report(ctx, "close() did not raise although %d atoms were announced and %d written" % (N, k), rep, "failclose")
+            report(ctx, "no exception although %d atoms were announced and %d records handed over" % (N, k), rep, "failclose")
             continue
-        if k > N and reference is not None and gc.numeric_line(reference, N):
-            ctx.cov["S"]["failclose_numeric_skipped"] = ctx.cov["S"].get("failclose_numeric_skipped", 0) + 1
+        if closed:
+            # the refused writeline escaped from a with block whose close() then completed: a complete file of
+            # the first N records; it must read back as exactly those
+            ctx.cov["S"]["closed_after_refusal"] = ctx.cov["S"].get("closed_after_refusal", 0) + 1
+            if obs[0] != "ok" or obs[2] != N or len(obs[3]) != N:
+                report(ctx, "announced %d, %d records handed over, close() completed, but the file does not read as %d atoms"
+                       % (N, k, N), rep, "failclose")
         elif gc.opened(obs):
-            report(ctx, "announced %d atoms, wrote %d, close() raised: the file left behind (%d bytes) was accepted on opening "
-                   "(natoms %s, %s atoms returned)" % (N, k, len(text), obs[2] if obs[0] == "ok" else "?",
-                                                       len(obs[3]) if obs[0] == "ok" else "no"), rep, "failclose")
+            report(ctx, "announced %d atoms, %d records handed over, an exception escaped and close() did not complete: the file "
+                   "left behind (%d bytes) was accepted on opening (natoms %s, %s atoms returned)"
+                   % (N, k, len(text), obs[2] if obs[0] == "ok" else "?", len(obs[3]) if obs[0] == "ok" else "no"),
+                   rep, "failclose")
         if terms is not None and all(ord(ch) < 128 for ch in text):
             try:
                 d = gc.effective_d(c)
-                terms.append(("chk_failclose %s\n   [%s]\n   %d %s (%s)" % (
-                    gc.t_conf(c), ";\n    ".join(gc.t_rec(x, d) for x in recs), raised, gc.t_bytes(text),
-                    gc.t_pobs(obs if obs[0] == "ok" else ("err", obs[1]), None)),
-                    dict(rep, what="failing close")))
+                if closed:
+                    if N >= 1:
+                        terms.append(("chk_c13 %s\n   [%s]\n   (WFile %s)\n   %s" % (
+                            gc.t_conf(c), ";\n    ".join(gc.t_rec(x, d) for x in recs[:N]), gc.t_bytes(text), gc.t_robs(obs)),
+                            dict(rep, what="close after a refused record")))
+                elif not (style and N <= 0):
+                    terms.append(("chk_failclose %s\n   [%s]\n   %d %s (%s)" % (
+                        gc.t_conf(c), ";\n    ".join(gc.t_rec(x, d) for x in recs), raised, gc.t_bytes(text),
+                        gc.t_pobs(obs if obs[0] == "ok" else ("err", obs[1]), None)),
+                        dict(rep, what="failing close / refused record")))
             except gc.Skip:
                 pass
 
@@ -303,6 +315,13 @@ def corpus(ctx):
         for announced, written in ((5, 3), (5, 1), (2, 1), (2, 4), (3, 4), (6, 5), (1, 2), (3, 0)):
             conf = {"title": "failing close", "natoms": None, "fmt": None, "box": ("vec", [3.0, 4.0, 5.0])}
             check_failclose(ctx, conf, demo_records(written, vel), "corpus_failing_close", announced=[announced])
+    # D18: announced 1, two records with velocities, the second one made of numeric tokens only: before the repair
+    # close() raised but the file was accepted as a 1-atom system whose "box" was the second record
+    for style in (False, True):
+        check_failclose(ctx, {"title": "D18", "natoms": None, "fmt": None, "box": ("vec", [3.0, 4.0, 5.0])},
+                        [(1, "SOL", "OW", 1, 0.1, 0.2, 0.3, 0.01, 0.02, 0.03),
+                         (1, "1e5", "1e5", 2, 0.4, 0.5, 0.6, 0.04, 0.05, 0.06)],
+                        "corpus_failing_close", announced=[1], use_with=style)
 
 
 def correspondence(ctx):
